@@ -293,7 +293,10 @@ Scripted ==
   /\ LET a == Prog[acts + 1] IN Do(a, ApplyRaw(st, a))
 
 Begin ==
-  /\ Quiet /\ ~Scripting /\ st.round < MaxRounds
+  \* (a state poisoned by a panic raised outside stabilise - set_max_height_allowed - is not driven further:
+  \*  its engine is intact and nothing is claimed about it; poisoned states stuck INSIDE a stabilise are
+  \*  the business of BeginPoisoned)
+  /\ Quiet /\ ~st.poisoned /\ ~Scripting /\ st.round < MaxRounds
   /\ st' = StabiliseBegin(ApiClearLogs(st))
   /\ hist' = Append(hist, [a |-> "stabilise"])
   /\ coneB' = ConeOf(st, ObservedNodes(st, LiveObs(st) \cup LinkedObs(st)), {})
